@@ -306,6 +306,10 @@ func c07AddrPort() (netip.AddrPort, bool) {
 
 func VerifC07_SetListener() {
 	d, u := c07Driver()
+	// the client's own listen address may be configured: the argument alone decides
+	if nondetBool("client.listen.set") {
+		u.listenAddr = types.ListenAddrFrom(netip.AddrFrom4([4]byte{nondetU8("client.listen.a"), 168, 1, 100}), nondetU16("client.listen.port"))
+	}
 	id := nondetU32("id")
 	addr, ok := c07AddrPort()
 	_, err := u.SetListener(id, addr, nondetU8("interval"))
@@ -416,6 +420,15 @@ func c07SetTimeProfile(legal bool) {
 				}
 			} else {
 				bad = true
+			}
+		}
+	}
+	if segments != nil {
+		// entries under keys other than 1..3 are not segments of the profile: they neither stand in for a missing
+		// one nor matter for the verdict
+		for _, k := range []uint8{0, 4} {
+			if nondetBool(keyTag("stray", int(k))) {
+				segments[k] = types.Segment{Start: types.NewHHmm(nondetInt(keyTag("stray.sh", int(k))), 0), End: types.NewHHmm(nondetInt(keyTag("stray.eh", int(k))), 0)}
 			}
 		}
 	}
